@@ -22,7 +22,7 @@ MANIFEST = {
 }
 MANIFEST["text"] += " " + (
     'Added after the seeding waves: the index must equal the last lattice column that holds a live emitting candidate (a fact of the lattice, not only of the returned path); traces of length 4 with an outlier in the middle; jump histories match / continue_with_distance / extend on the named graphs; the cut-off configurations additionally with the package logger at DEBUG (stopped candidates are then materialised in the lattice); histories whose calls ask for different forms of the state list (unique on one call, not on the next).')
-BUDGET = {"quick": 420, "thorough": 3000}
+BUDGET = {"quick": 900, "thorough": 3000}
 RULE = ("states = path states inspected, transitions = path steps inspected, traces validated = results compared with the reference "
         "start-candidate rule; non-trivial = the match stopped early, is empty, or contains non-emitting states; outcomes = (index, "
         "path shape).")
